@@ -1,5 +1,8 @@
 """C03 - parameters are by-value locals hiding globals; return from any depth."""
+from hypothesis import given, seed, strategies as st
+
 from verif.checks import progbase
+from verif.runner import Acc
 
 ID = 'C03'
 LEVEL = 'exploration'
@@ -20,8 +23,9 @@ RULE = (
 ASSUMPTIONS = [
     'Scope rules as in DESIGN.md Appendix A (docs/language.rst, "Routine '
     'Definitions" and "Variables").',
-    'Macros never share a name with a variable or parameter; the value of a '
-    'loop variable after its loop is never read.',
+    'In the generated programs macros never share a name with a variable or '
+    'parameter (the collision templates cover that); the value of a loop '
+    'variable after its loop is never read.',
 ]
 PROFILE = {
     'w_call': 14, 'w_assign': 10, 'w_routine': 4, 'w_return': 5, 'w_print': 4,
@@ -68,16 +72,140 @@ def nontrivial(outcome, case):
 
 
 def plan(tier, seed_value):
-    return progbase.plan(ID, tier, seed_value, quick=4000, thorough=200000)
+    specs = progbase.plan(ID, tier, seed_value, quick=4000, thorough=200000)
+    for k in range(4):
+        specs.append({'kind': 'collisions', 'seed': seed_value * 1000 + k,
+                      'examples': 2000 if tier == 'thorough' else 250})
+    return specs
 
 
 def run_shard(spec):
+    if spec.get('kind') == 'collisions':
+        acc = Acc()
+
+        @seed(spec['seed'])
+        @progbase.hyp_settings(spec['examples'])
+        @given(collisions())
+        def run(case):
+            check_collision(acc, case)
+        run()
+        return acc
     return progbase.run_shard(spec, ID, PROFILE, nontrivial)
 
 
 def replay(case):
+    if case.get('kind') == 'collision':
+        acc = Acc()
+        check_collision(acc, case)
+        return [(f['sig'], f['what']) for f in acc.failures.values()]
     return progbase.replay(case, ID, nontrivial)
 
 
 def shrink(failure):
+    if failure['case'].get('kind') == 'collision':
+        return failure
     return progbase.shrink(failure, ID, nontrivial)
+
+
+# ---- a global of any kind named like something private to a routine -------------------
+@st.composite
+def collisions(draw):
+    return {
+        'kind': 'collision',
+        'name': draw(st.sampled_from(['n', 'x', 'limit', 'i', 'lamp'])),
+        'outer': draw(st.sampled_from(['macro-before', 'macro-after',
+                                       'variable-before'])),
+        'role': draw(st.sampled_from(['parameter', 'parameter-assigned',
+                                      'local', 'loop-index', 'cycle-index',
+                                      'as-variable'])),
+        'outer_value': draw(st.integers(50, 99)),
+        'argument': draw(st.integers(1, 9)),
+        'delta': draw(st.integers(1, 5)),
+    }
+
+
+def collision_script(case):
+    """(text, expected printed values)"""
+    name, role = case['name'], case['role']
+    outer, arg, delta = case['outer_value'], case['argument'], case['delta']
+    if role == 'parameter':
+        routine = 'define q_f with {0} begin println {0} return {{{0} * 2}} ' \
+            'end'.format(name)
+        inside = [arg, arg * 2]
+    elif role == 'parameter-assigned':
+        routine = 'define q_f with {0} begin assign {0} {{{0} + {1}}} ' \
+            'println {0} return {0} end'.format(name, delta)
+        inside = [arg + delta, arg + delta]
+    elif role == 'local':
+        routine = 'define q_f with q_p begin assign {0} {{q_p + {1}}} ' \
+            'println {0} return {{{0} + 1}} end'.format(name, delta)
+        inside = [arg + delta, arg + delta + 1]
+    elif role == 'loop-index':
+        routine = 'define q_f with q_p begin repeat with {0} from 1 to 3 ' \
+            'print {0} println q_p return q_p end'.format(name)
+        inside = [1, 2, 3, arg, arg]
+    elif role == 'cycle-index':
+        routine = 'define q_f with q_p begin repeat 2 with {0} cycle ' \
+            'print {0} println q_p return q_p end'.format(name)
+        inside = [0, 180, arg, arg]
+    else:
+        routine = 'define q_f with q_p begin repeat in "A" and "B" as {0} ' \
+            'print {0} println q_p return q_p end'.format(name)
+        inside = ['A', 'B', arg, arg]
+    define_outer = {'macro-before': 'define {} {}'.format(name, outer),
+                    'macro-after': 'define {} {}'.format(name, outer),
+                    'variable-before': 'assign {} {}'.format(name, outer)}[
+                        case['outer']]
+    call = 'println [q_f {}] println {}'.format(arg, name)
+    if case['outer'] == 'macro-after':
+        lines = [routine, define_outer, call]
+    else:
+        lines = [define_outer, routine, call]
+    if case['outer'] == 'macro-before' and not role.startswith('parameter'):
+        # not a parameter, so the name means the global - a constant: the
+        # assignment (a loop variable is one) has to be rejected
+        return '\n'.join(lines), 'rejected'
+    after = outer
+    if case['outer'] == 'variable-before' and role in (
+            'local', 'loop-index', 'cycle-index', 'as-variable'):
+        # documented: assigning to a name that is a global updates the global
+        after = {'local': arg + delta, 'loop-index': None,
+                 'cycle-index': None, 'as-variable': None}[role]
+    return '\n'.join(lines), inside + [after]
+
+
+def check_collision(acc, case):
+    from verif.harness import shared_world
+    world = shared_world('c03-collisions', [
+        {'label': 'A', 'group': 'G', 'location': 'L'},
+        {'label': 'B', 'group': 'G', 'location': 'L'}])
+    del world.trace[:]
+    text, expected = collision_script(case)
+    result = world.run(text, budget=20000)
+    acc.case(key=text, nontrivial=True,
+             labels=['collision', 'outer:' + case['outer'],
+                     'role:' + case['role']],
+             sample={'script': text, 'expected': expected}
+             if len(acc.samples) < 3 else None)
+    sig = 'collision:{}:{}'.format(case['outer'].split('-')[0], case['role'])
+    if expected == 'rejected':
+        if result.compiled:
+            acc.fail(sig + ':accepted', '{}\n-> accepted although {} is a '
+                     'constant and not a parameter here'.format(
+                         text, case['name']), case)
+        return
+    if not result.compiled or result.aborted:
+        acc.fail(sig + ':did-not-run', '{}\n-> {} {}'.format(
+            text, result.errors.strip(), result.aborted), case)
+        return
+    outs = [e[1] for e in result.trace if e[0] == 'out']
+    # None in the expectation = not asserted (a loop variable after its loop)
+    ok = len(outs) == len(expected) and all(
+        want is None or got == want or (
+            not isinstance(want, str) and not isinstance(got, str)
+            and got is not None and abs(got - want) < 1e-9)
+        for got, want in zip(outs, expected))
+    if not ok:
+        acc.fail(sig, '{}\n-> printed {}, the scope rules give {}'.format(
+            text, outs, expected), case)
+
